@@ -50,7 +50,11 @@ def run(rep):
     # the kernel's file size limit; the final tree is judged by Spec.rewriteOk (tools/rewriteproc.py)
     import proc
     import rewriteproc
-    proc_cov = rewriteproc.stage(rep, proc.Tools(sc))
+    import attactions
+    tools = proc.Tools(sc)
+    proc_cov = rewriteproc.stage(rep, tools)
+    # actions inside attachment { } blocks: rejected as a whole, or the whole message is preserved (tools/attactions.py, shared with C02)
+    att_cov = attactions.stage(rep, tools, 'C08')
     d.conclude('message.c (headers, message_write) <-> Model/Header.lean')
     vlib.lean_conclude(rep)
     applicable = [i for i, s in enumerate(spec) if s is not None]
@@ -79,6 +83,7 @@ def run(rep):
         'spec_failures': len(d.spec_fail),
         'sanitizer_faults': len(d.faults),
         'process_level_rewrite_under_faults': proc_cov,
+        'actions_inside_attachment_blocks': att_cov,
     })
     rep.assumptions += ['C locale / C.utf8', 'set values contain no newline or NUL and do not start with a blank (SetOk)',
                         'process level: single faults; the kernel enforces the file size limit as RLIMIT_FSIZE does (short count, then EFBIG)']
@@ -87,6 +92,14 @@ def run(rep):
 def replay(rep, path):
     import json
     j = json.load(open(path))
+    if j.get('stage') == 'attachment-actions':
+        import proc
+        import attactions
+        sc = vlib.Scratch()
+        vlib.lean_gate(rep, 'C08', sc, [])
+        attactions.replay(proc.Tools(sc), j)
+        rep.coverage.update({'evaluations': 1, 'distinct_nontrivial': 1})
+        return
     if j.get('stage') == 'process':
         import proc
         import rewriteproc
